@@ -226,6 +226,59 @@ def generate_normalisers(repo: Path, outdir: Path) -> dict:
     return dict(normalise_changed=changed, norm_sites=len(sites))
 
 
+# ---------------------------------------------------------------------------------------------
+# C08 (purity): the wrappers around in-place native kernels hand over the user's array only when asked
+
+COPY_GUARD_SITES = [('convolve', '_wavelet_array', 'inline'), ('labeled', '_as_labeled', 'inplace'),
+                    ('features/surf', 'integral', 'in_place')]
+
+
+def extract_copy_guards(repo: Path):
+    """for each site: under `if not <flag>:` every assignment/return to the array is a copying numpy call"""
+    out = []
+    for mod, fname, flag in COPY_GUARD_SITES:
+        import warnings
+        with warnings.catch_warnings():
+            warnings.simplefilter('ignore')          # surf.py has an invalid escape in a docstring
+            tree = ast.parse((repo / 'mahotas' / (mod + '.py')).read_text())
+        fn = next((n for n in tree.body if isinstance(n, ast.FunctionDef) and n.name == fname), None)
+        if fn is None:
+            raise TranslationError(f'{mod}.{fname} not found')
+        guard = next((n for n in ast.walk(fn) if isinstance(n, ast.If) and _src(n.test) == f'not {flag}'), None)
+        if guard is None:
+            raise TranslationError(f'{mod}.{fname}: `if not {flag}:` not found')
+        calls = set()
+
+        def visit(stmts):
+            for st in stmts:
+                if isinstance(st, ast.If):
+                    if not st.orelse:
+                        raise TranslationError(f'{mod}.{fname}: a branch under `not {flag}` may fall through without a copy')
+                    visit(st.body)
+                    visit(st.orelse)
+                elif isinstance(st, (ast.Assign, ast.Return)) and isinstance(st.value, ast.Call):
+                    calls.add(getattr(st.value.func, 'attr', None) or getattr(st.value.func, 'id', '?'))
+                else:
+                    raise TranslationError(f'{mod}.{fname}: unexpected statement under `not {flag}`: {_src(st)[:60]}')
+        visit(guard.body)
+        if not calls:
+            raise TranslationError(f'{mod}.{fname}: nothing happens under `not {flag}`')
+        out.append((f"{mod.replace('/', '.')}.{fname}", flag, sorted(calls)))
+    return out
+
+
+def generate_copy_guards(repo: Path, outdir: Path) -> dict:
+    sites = extract_copy_guards(repo)
+    s = ['/- GENERATED by translator/tables.py (generate_copy_guards) from the current /repo sources. Do not edit. -/',
+         'namespace Mahotas.Generated', '',
+         '/-- (wrapper, flag, numpy calls that produce the array handed to the in-place kernel when the flag is false) -/',
+         'def copyGuards : List (String × String × List String) := [' +
+         ', '.join('("%s", "%s", [%s])' % (a, b, ', '.join('"%s"' % x for x in c)) for a, b, c in sites) + ']',
+         '', 'end Mahotas.Generated', '']
+    changed = _write_if_changed(outdir / 'CopyGuards.lean', '\n'.join(s))
+    return dict(copy_guards_changed=changed, copy_guards=len(sites))
+
+
 def lean_list(xs):
     return '[' + ', '.join(str(x) for x in xs) + ']'
 
@@ -250,6 +303,7 @@ def generate(repo: Path, outdir: Path) -> dict:
     res = dict(tables_changed=changed, modes=len(py), translate_sizes=len(ts))
     res.update(generate_outconv(repo, outdir))      # C09
     res.update(generate_normalisers(repo, outdir))  # C08
+    res.update(generate_copy_guards(repo, outdir))  # C08
     return res
 
 
